@@ -40,6 +40,15 @@ Theorem C20_drained_equal : forall i l key knd ops t,
   delivered i l (run ops t) = delivered i l t ++ pending i l key t ++ pubs_all key ops.
 Proof. exact drained_equal. Qed.
 
+(* "below the slow-consumer threshold", in the terms of the property: at most 64
+   messages outstanding for the subscriber (in the pipe at the start plus
+   published during the history) -- then the channel never overflows *)
+Theorem C20_below_threshold : forall i l key knd ops t,
+  Good i l key knd t -> forallb (keeps l key knd) ops = true ->
+  List.length (pending i l key t) + List.length (pubs_all key ops) <= 64 ->
+  no_overflow i ops t = true.
+Proof. exact below_threshold. Qed.
+
 (* ---- every listener, registered or not, any capacity: order and at-most-once ------
    No hypothesis on registrations, unregistrations or overflow: what any listener
    l is handed through subscriber i (plus what is still on its way) is a
@@ -173,12 +182,13 @@ Example C20_fifo_nonvacuous :
   Good 0 2%N (subject_of ex_tg) KRoom ex_t0 /\
   forallb (keeps 2%N (subject_of ex_tg) KRoom) ex_ops = true /\
   no_overflow 0 ex_ops ex_t0 = true /\
+  List.length (pending 0 2%N (subject_of ex_tg) ex_t0) + List.length (pubs_all (subject_of ex_tg) ex_ops) <= 64 /\
   pending 0 2%N (subject_of ex_tg) (run ex_ops ex_t0) = [] /\
   delivered 0 2%N (run ex_ops ex_t0) = [100%N; 101%N] /\
   delivered 0 1%N (run ex_ops ex_t0) = [] /\
   delivered 0 4%N (run ex_ops ex_t0) = [101%N].
 Proof.
-  split; [|vm_compute; repeat split; reflexivity].
+  split; [|vm_compute; repeat split; try reflexivity; repeat constructor].
   split.
   - split.
     + eexists. split; [vm_compute; reflexivity|]. split; [reflexivity|]. split.
@@ -224,6 +234,7 @@ Proof. vm_compute. reflexivity. Qed.
 Print Assumptions C20_bus_fifo_exact.
 Print Assumptions C20_received_is_prefix.
 Print Assumptions C20_drained_equal.
+Print Assumptions C20_below_threshold.
 Print Assumptions C20_in_order_at_most_once.
 Print Assumptions C20_callback_provenance.
 Print Assumptions C20_subject_kind_inj.
